@@ -2,6 +2,8 @@
  * allocator at runtime level >= DEBUG_MEM (units *.on.*) and leave it untouched below (units *.off:
  * empty frame).  Compiled with DEBUG 5.  Callees memrec_add_var / memrec_rem_var / memrec_chg_var are
  * represented by the contracts proved in table.c.  Contracts: contracts/mem.h.
+ * spifmem_free and the realloc(p, 0) behaviour run memrec_rem_var's memmove: like table.rem_var.cnt* they are
+ * BOUNDED units (constant record count, everything inlined, loops unwound).
  * spifmem_realloc's callees spifmem_malloc / spifmem_free are inlined (real bodies): cbmc 6.11 rejects
  * __CPROVER_was_freed in the ensures clause of a REPLACED contract ("requires ptr to always exist in the
  * contract's frees clause" fails even on a 10-line example), so spifmem_free's contract cannot be used
@@ -107,39 +109,6 @@ timeout: 200
 mem: 8
 */
 /*@unit
-name: free.on.shape
-define: U_FREE, U_LEVEL_ON, MEM_PART=1
-debug: 5
-src: mem.c
-enforce: spifmem_free
-replace: memrec_rem_var
-backend: sat
-timeout: 280
-mem: 14
-*/
-/*@unit
-name: free.on.records
-define: U_FREE, U_LEVEL_ON, MEM_PART=2
-debug: 5
-src: mem.c
-enforce: spifmem_free
-replace: memrec_rem_var
-backend: sat
-timeout: 280
-mem: 14
-*/
-/*@unit
-name: free.on.nodup
-define: U_FREE, U_LEVEL_ON, MEM_PART=3
-debug: 5
-src: mem.c
-enforce: spifmem_free
-replace: memrec_rem_var
-backend: sat
-timeout: 280
-mem: 14
-*/
-/*@unit
 name: realloc.off
 define: U_REALLOC, U_LEVEL_OFF
 debug: 5
@@ -175,39 +144,6 @@ mem: 14
 /*@unit
 name: realloc.null.on.nodup
 define: U_REALLOC, U_RB_NULL, U_LEVEL_ON, MEM_PART=3, VERIF_MEMHASH_REALLOC_ELEM_T=spifmem_ptr_t
-debug: 5
-src: mem.c
-enforce: spifmem_realloc
-replace: memrec_add_var, memrec_rem_var, memrec_chg_var
-backend: sat
-timeout: 280
-mem: 14
-*/
-/*@unit
-name: realloc.zero.on.shape
-define: U_REALLOC, U_RB_ZERO, U_LEVEL_ON, MEM_PART=1, VERIF_MEMHASH_REALLOC_ELEM_T=spifmem_ptr_t
-debug: 5
-src: mem.c
-enforce: spifmem_realloc
-replace: memrec_add_var, memrec_rem_var, memrec_chg_var
-backend: sat
-timeout: 280
-mem: 14
-*/
-/*@unit
-name: realloc.zero.on.records
-define: U_REALLOC, U_RB_ZERO, U_LEVEL_ON, MEM_PART=2, VERIF_MEMHASH_REALLOC_ELEM_T=spifmem_ptr_t
-debug: 5
-src: mem.c
-enforce: spifmem_realloc
-replace: memrec_add_var, memrec_rem_var, memrec_chg_var
-backend: sat
-timeout: 280
-mem: 14
-*/
-/*@unit
-name: realloc.zero.on.nodup
-define: U_REALLOC, U_RB_ZERO, U_LEVEL_ON, MEM_PART=3, VERIF_MEMHASH_REALLOC_ELEM_T=spifmem_ptr_t
 debug: 5
 src: mem.c
 enforce: spifmem_realloc
@@ -293,6 +229,99 @@ backend: sat
 timeout: 280
 mem: 14
 */
+/*@unit
+name: free.on.cnt0
+define: U_FREE, U_LEVEL_ON, MEMREC_HARNESS_CNT=0, VERIF_MEMHASH_REALLOC_ELEM_T=spifmem_ptr_t, VERIF_MEMHASH_MEMMOVE_LOOP
+debug: 5
+src: mem.c
+enforce: spifmem_free
+backend: sat
+tier: B
+bound: tracker table of exactly 0 records (cnt <= 3 over the units free.on.cnt0..cnt3); pointers, record contents, ghost indices symbolic
+unwind: 8
+timeout: 400
+mem: 14
+*/
+/*@unit
+name: free.on.cnt1
+define: U_FREE, U_LEVEL_ON, MEMREC_HARNESS_CNT=1, VERIF_MEMHASH_REALLOC_ELEM_T=spifmem_ptr_t, VERIF_MEMHASH_MEMMOVE_LOOP
+debug: 5
+src: mem.c
+enforce: spifmem_free
+backend: sat
+tier: B
+bound: tracker table of exactly 1 records (cnt <= 3 over the units free.on.cnt0..cnt3); pointers, record contents, ghost indices symbolic
+unwind: 8
+timeout: 400
+mem: 14
+*/
+/*@unit
+name: free.on.cnt2
+define: U_FREE, U_LEVEL_ON, MEMREC_HARNESS_CNT=2, VERIF_MEMHASH_REALLOC_ELEM_T=spifmem_ptr_t, VERIF_MEMHASH_MEMMOVE_LOOP
+debug: 5
+src: mem.c
+enforce: spifmem_free
+backend: sat
+tier: B
+bound: tracker table of exactly 2 records (cnt <= 3 over the units free.on.cnt0..cnt3); pointers, record contents, ghost indices symbolic
+unwind: 8
+timeout: 400
+mem: 14
+*/
+/*@unit
+name: free.on.cnt3
+define: U_FREE, U_LEVEL_ON, MEMREC_HARNESS_CNT=3, VERIF_MEMHASH_REALLOC_ELEM_T=spifmem_ptr_t, VERIF_MEMHASH_MEMMOVE_LOOP
+debug: 5
+src: mem.c
+enforce: spifmem_free
+backend: sat
+tier: B
+bound: tracker table of exactly 3 records (cnt <= 3 over the units free.on.cnt0..cnt3); pointers, record contents, ghost indices symbolic
+unwind: 8
+timeout: 400
+mem: 14
+quick: no
+*/
+/*@unit
+name: realloc.zero.on.cnt0
+define: U_REALLOC, U_RB_ZERO, U_LEVEL_ON, MEMREC_HARNESS_CNT=0, VERIF_MEMHASH_REALLOC_ELEM_T=spifmem_ptr_t, VERIF_MEMHASH_MEMMOVE_LOOP, VERIF_MEMHASH_STRNCPY_MODEL
+debug: 5
+src: mem.c
+enforce: spifmem_realloc
+backend: sat
+tier: B
+bound: tracker table of exactly 0 records (cnt <= 2 over the units realloc.zero.on.cnt0..cnt2); pointers, record contents, ghost indices symbolic
+unwind: 8
+timeout: 400
+mem: 14
+*/
+/*@unit
+name: realloc.zero.on.cnt1
+define: U_REALLOC, U_RB_ZERO, U_LEVEL_ON, MEMREC_HARNESS_CNT=1, VERIF_MEMHASH_REALLOC_ELEM_T=spifmem_ptr_t, VERIF_MEMHASH_MEMMOVE_LOOP, VERIF_MEMHASH_STRNCPY_MODEL
+debug: 5
+src: mem.c
+enforce: spifmem_realloc
+backend: sat
+tier: B
+bound: tracker table of exactly 1 records (cnt <= 2 over the units realloc.zero.on.cnt0..cnt2); pointers, record contents, ghost indices symbolic
+unwind: 8
+timeout: 400
+mem: 14
+*/
+/*@unit
+name: realloc.zero.on.cnt2
+define: U_REALLOC, U_RB_ZERO, U_LEVEL_ON, MEMREC_HARNESS_CNT=2, VERIF_MEMHASH_REALLOC_ELEM_T=spifmem_ptr_t, VERIF_MEMHASH_MEMMOVE_LOOP, VERIF_MEMHASH_STRNCPY_MODEL
+debug: 5
+src: mem.c
+enforce: spifmem_realloc
+backend: sat
+tier: B
+bound: tracker table of exactly 2 records (cnt <= 2 over the units realloc.zero.on.cnt0..cnt2); pointers, record contents, ghost indices symbolic
+unwind: 8
+timeout: 400
+mem: 14
+quick: no
+*/
 #include "vprelude.h"
 #include "env_memhash.h"
 #include "src/mem.c"
@@ -311,6 +340,7 @@ void harness(void)
 
     __CPROVER_assume(vg_k <= SPIFMEM_FNAME_LEN);
     __CPROVER_assume(vg_r < MEMREC_CAP && vg_r2 < MEMREC_CAP);
+    MEMREC_HARNESS_BUILD(&malloc_rec);
     w_cnt = malloc_rec.cnt; w_r = vg_r; w_r2 = vg_r2; w_line = line; w_size = size; w_level = libast_debug_level;
 #if defined(U_MALLOC)
     spifmem_malloc(fname, line, size);
